@@ -593,6 +593,12 @@ def Not(x):
 
 
 def Implies(a, b):
+    """b may be a zero-argument callable: it is then evaluated only if a is not concretely false (guards index errors when a
+    clause is evaluated eagerly on concrete values)."""
+    if callable(b) and not isinstance(b, (Sym, NpScalar)):
+        if _all_concrete([a]) and not bool(raw(a)):
+            return True
+        b = b()
     if _all_concrete([a]):
         return b if bool(raw(a)) else True
     if _all_concrete([b]) and bool(raw(b)):
@@ -692,6 +698,10 @@ class Arr:
 
     def __len__(self):
         return self.shape[0]
+
+    @property
+    def T(self):
+        return CURRENT["interp"].np.transpose(self)
 
     def nested(self):
         """nested Python lists (tolist-like, elements unchanged)."""
